@@ -20,7 +20,8 @@ from harness import c08_world as W
 FA = 7            # force_after used by the injected close() calls
 REACT = 3         # a stubborn handler's reaction time
 TAIL = 200        # virtual seconds after the conversation
-LTS_EVENTS = {'Q', 'W', 'B', 'C', 'F', 'O', 'R', 'L', 'AC', 'ACC', 'ACT', 'AB', 'A'}
+LTS_EVENTS = {'Q', 'W', 'B', 'C', 'X', 'D', 'NQ', 'NW', 'BT', 'F', 'O', 'OB', 'ON', 'R', 'L', 'AC', 'ACC',
+              'ACT', 'AB', 'A'}
 
 RULE = ('case = (session kind RPCSession|MessageSession, transport RSTransport|USTransport, '
         'graceful close completes or stalls, event list); crash-point cases = conversation of '
@@ -395,7 +396,9 @@ def case_of(cfg, evs):
 
 def model_line(ctx, cfg, evs):
     rt = int(round((ctx.facts or {}).get('sent_request_timeout', 30.0)))
-    return f'{rt} {int(bool(cfg["stalled"]))} ; ' + ' ; '.join(W.ser(e) for e in evs)
+    dfa = (ctx.facts or {}).get('default_force_after', 30)
+    dfa = int(dfa) if isinstance(dfa, (int, float)) else 30
+    return f'{rt} {int(bool(cfg["stalled"]))} {dfa} ; ' + ' ; '.join(W.ser(e) for e in evs)
 
 
 def evaluate(ctx, jobs, res, label, chunk=40000):
